@@ -14,10 +14,11 @@
     universally quantified; [style_ok ist fi] = explicit "none" is only written for the repaired parser. *)
 From Coq Require Import String Ascii List Bool ZArith Permutation.
 From LC Require Import Common NumDefs XmlDefs EntTreeDefs PrintDefs LoadDefs RoundtripSpec Load1xDefs To1xDefs
-     RoundtripEncProofs TransformSimProofs TransformProofs Load1xProofs Drop1xSpec Drop1xProofs.
+     RoundtripEncProofs TransformSimProofs TransformProofs TransformHoistProofs Load1xProofs Drop1xSpec Drop1xProofs.
 From LCGen Require RuleTable.
 Import ListNotations.
 Local Open Scope string_scope.
+Local Open Scope list_scope.
 
 (** * transform_roundtrip *)
 
@@ -31,35 +32,42 @@ Print Assumptions C14_simulation.
 
 (** hence for every printable, expressible model — ALL features: connections and 1.1 imports included — the 1.x
     rewriting is read exactly as the 2.0 print is read *)
-Theorem C14_transform_as_20 : forall E fx fi fd v ist cm us m, style_ok ist fi -> printable E true m -> expressible_1x E v m ->
-  load1x E fx fi fd false (to1x v ist cm us false E m)
+Theorem C14_transform_as_20 : forall E fx fi fd v ist cm us hoist m, style_ok ist fi -> printable E true m -> expressible_1x E v m ->
+  load1x E fx fi fd false (to1x v ist cm us hoist E m)
   = (fst (load E fx true (print_tree E m)), msg :: snd (load E fx true (print_tree E m))).
-Proof. intros. now apply TransformProofs.transform_as_20. Qed.
+Proof. intros. now apply TransformHoistProofs.transform_as_20_h. Qed.
 Print Assumptions C14_transform_as_20.
 
 (** stage flat: the transformed model is EXACTLY canon m, the only issue is the transformation message *)
-Theorem C14_transform_roundtrip_flat : forall E fx fi fd v ist cm us m, style_ok ist fi -> printable E true m ->
+Theorem C14_transform_roundtrip_flat : forall E fx fi fd v ist cm us hoist m, style_ok ist fi -> printable E true m ->
   expressible_1x E v m -> flat m = true ->
-  load1x E fx fi fd false (to1x v ist cm us false E m) = (canon E m, [msg]).
-Proof. intros. now apply TransformProofs.transform_flat. Qed.
+  load1x E fx fi fd false (to1x v ist cm us hoist E m) = (canon E m, [msg]).
+Proof. intros. now apply TransformHoistProofs.transform_flat_h. Qed.
 Print Assumptions C14_transform_roundtrip_flat.
 
 (** stage encapsulation (groups / relationship_ref / component_ref of any depth, cmeta:id on component_ref) *)
-Theorem C14_transform_roundtrip_encapsulation_exact : forall E fx fi fd v ist cm us m, style_ok ist fi -> printable E true m ->
+Theorem C14_transform_roundtrip_encapsulation_exact : forall E fx fi fd v ist cm us hoist m, style_ok ist fi -> printable E true m ->
   expressible_1x E v m -> no_imports m = true -> no_connections m = true ->
-  load1x E fx fi fd false (to1x v ist cm us false E m)
+  load1x E fx fi fd false (to1x v ist cm us hoist E m)
   = ({| m_name := m_name m; m_id := m_id m; m_encid := m_encid m; m_units := map (canon_units E) (m_units m);
         m_comps := map (canon_comp E) (enc_order (m_comps m)); m_eqv := [] |}, [msg]).
-Proof. intros. now apply TransformProofs.transform_encapsulation_exact. Qed.
+Proof. intros. now apply TransformHoistProofs.transform_encapsulation_exact_h. Qed.
 Print Assumptions C14_transform_roundtrip_encapsulation_exact.
 
 (** transform_roundtrip as stated in the design, on the fragment C02's round trip reaches (no imports, no connections) *)
-Theorem C14_transform_roundtrip_partial : forall E fx fi fd v ist cm us m, style_ok ist fi -> printable E true m ->
+Theorem C14_transform_roundtrip_partial : forall E fx fi fd v ist cm us hoist m, style_ok ist fi -> printable E true m ->
   expressible_1x E v m -> no_imports m = true -> no_connections m = true ->
-  exists m' is, load1x E fx fi fd false (to1x v ist cm us false E m) = (m', is)
+  exists m' is, load1x E fx fi fd false (to1x v ist cm us hoist E m) = (m', is)
                 /\ content_eq m' (canon E m) /\ Forall (fun i => is_message i = true) is.
-Proof. intros. now apply TransformProofs.transform_roundtrip. Qed.
+Proof. intros. now apply TransformHoistProofs.transform_roundtrip_h. Qed.
 Print Assumptions C14_transform_roundtrip_partial.
+
+(** component-level units ([hoist = true]: the units elements before the first component element are written inside it):
+    loadUnitsFromComponent brings them back, the parser answers exactly as without the move *)
+Theorem C14_component_level_units : forall E fx fi fd v ist cm us m, style_ok ist fi -> printable E true m -> expressible_1x E v m ->
+  load1x E fx fi fd false (to1x v ist cm us true E m) = load1x E fx fi fd false (to1x v ist cm us false E m).
+Proof. intros. now apply TransformHoistProofs.transform_hoist. Qed.
+Print Assumptions C14_component_level_units.
 
 (** the printed document of an expressible model is in the class of the simulation *)
 Theorem C14_print_tree_conv_ok : forall E v m, nonempty (m_name m) = true -> expressible_1x E v m -> conv_ok (print_tree E m) = true.
@@ -68,14 +76,14 @@ Print Assumptions C14_print_tree_conv_ok.
 
 (* NOT PROVED:
    transform_roundtrip : forall E fx fi fd v ist cm us m, style_ok ist fi -> printable E true m -> expressible_1x E v m ->
-     exists m' is, load1x E fx fi fd false (to1x v ist cm us false E m) = (m', is)
+     exists m' is, load1x E fx fi fd false (to1x v ist cm us hoist E m) = (m', is)
                    /\ content_eq m' (canon E m) /\ Forall (fun i => is_message i = true) is
    for models WITH connections or imports.  C14_transform_as_20 reduces it, for all features, to C02's round trip
    "load (print_tree m) = (m', []) /\ content_eq m' (canon m)", whose stages 4 (connections) and 5 (imports) are not
    proved (design_notes/C02.md).  The instance of the statement is CHECKED on every generated model ("model instance of
    the transformation theorems" in checks/c14.py: extracted expressible_1xb, printableb, to1x, load1x, canon).
-   Component-level units in the rewriting ([hoist = true]): not covered by C14_simulation; what the parser does with
-   them is C14_component_units_hoisted, and the documents are compared on every run. *)
+   Units placed inside ARBITRARY components (python-only spelling) and the decorated documents are compared on every run;
+   what the parser does with component-level units in any document is C14_component_units_hoisted. *)
 
 (** * strict_refuses *)
 Theorem C14_strict_refuses : forall E fx fi fd v ist cm us hoist m,
